@@ -498,9 +498,16 @@ class AtomicWriter(Generic[IOKindT]):
     def make_tempfile(self) -> None:
         """Create the temporary file object."""
         if self.temp is not None:
-            # Already open - close and delete the current file.
-            self.temp.close()
-            Path(self.temp.name).unlink()
+            # Already open - close and delete the current file. Forget the handle first: if closing it,
+            # or creating the new file below fails, a later attempt must not delete this name again.
+            temp, self.temp = self.temp, None
+            try:
+                temp.close()
+            finally:
+                try:
+                    Path(temp.name).unlink()
+                except FileNotFoundError:
+                    pass
 
         # Create folders if needed.
         self.filename.parent.mkdir(parents=True, exist_ok=True)
